@@ -40,7 +40,7 @@ def distinct_interleavings(seen=None):
     if seen is None:
         seen = set()
     for f in os.listdir(RUN):
-        if f.startswith("thrsim-") and f.endswith(".ih"):
+        if f.startswith("thrsim-") and f.endswith(".ih") and ("-%d-" % os.getpid()) in f:  # only this check's own workers
             p = os.path.join(RUN, f)
             try:
                 b = open(p, "rb").read()
@@ -74,7 +74,7 @@ def main(a):
             return 0
 
         for f in os.listdir(RUN):
-            if f.startswith("thrsim-") and f.endswith(".ih"):
+            if f.startswith("thrsim-") and f.endswith(".ih") and ("-%d-" % os.getpid()) in f:
                 try:
                     os.unlink(os.path.join(RUN, f))
                 except OSError:
